@@ -386,6 +386,10 @@ VARIANTS = [
     {"name": "P15 face bitfield reader accumulates in one expression", "file": TEMPLATES, "expect": "silent",
      "old": "            have_next = char & 0x80\n            val |= char & 0x7F\n            if have_next:\n                val <<= 7\n",
      "new": "            have_next = bool(char & 0x80)\n            val = val | (char & 0x7F)\n            if have_next:\n                val = val << 7\n"},
+    {"name": "P16 plain branch accepts inf / nan spellings (the fix the rule asks for)", "file": FMT, "expect": "silent",
+     "old": "                    elif re.match(r\"\\A\\w+-\\w+-.*\", var_val):\n",
+     "new": "                    elif re.match(r\"\\A[-+]?(inf|nan)\\Z\", var_val):\n                        var_val = float(var_val)\n"
+            "                    elif re.match(r\"\\A\\w+-\\w+-.*\", var_val):\n"},
     # ------------------------------------------------------------------ documented limits
     {"name": "X wrap width changed (line-wrapping details are value level)", "file": FMT, "expect": "miss",
      "old": "HippoPrettyPrinter(width=100)", "new": "HippoPrettyPrinter(width=40)"},
